@@ -64,6 +64,27 @@ def check_case(ctx, case):
             return 'a CellBuffer rendered at scale %s after a render at scale %s differs from a fresh one: fresh only %s; reused only %s' % (
                 sc, case['reuse'], [show_el(e) for e in u1[:3]], [show_el(e) for e in u2[:3]])
         ctx.tag('reused_buffer_renders')
+    if case.get('zoom'):
+        # the two step path with fragments the caller zoomed before handing them back: the scale setting still
+        # multiplies every length (the zoom factor may coincide with the scale, which is what a caller who
+        # "pre-scales" the fragments would pass)
+        z = case['zoom']
+        r4 = ctx.conv(s, entry=9, scale=1.0, flags=flags, ow=z)
+        r5 = ctx.conv(s, entry=9, scale=sc, flags=flags, ow=z)
+        if not (r4.ok and r5.ok):
+            return 'conversion of zoomed fragments failed: ' + (r4.fail_text() if not r4.ok else r5.fail_text())
+        try:
+            za = Scene(r4.out, sc=F(f32(z)))
+            zb = Scene(r5.out, sc=F(f32(z)) * F(f32(sc)))
+        except Malformed as e:
+            return 'output not parseable: %s' % e
+        ctx.tag('zoomed_fragment_renders')
+        if z == sc:
+            ctx.tag('zoom_equals_scale')
+        u1, u2 = multiset_match(za.els, zb.els, TOL)
+        if u1 or u2:
+            return 'fragments zoomed by %s: scale %s changes more than lengths: at scale 1 only %s; at scale %s (divided) only %s' % (
+                z, sc, [show_el(e) for e in u1[:3]], sc, [show_el(e) for e in u2[:3]])
     ua, ub = multiset_match(a.els, b.els, TOL)
     if ua or ub:
         return 'scale %s changes more than lengths: at scale 1 only %s; at scale %s (divided) only %s' % (
@@ -101,6 +122,8 @@ def run_shard(ctx, shard):
         case = {'rows': rows, 'scale': rng.choice(SCALES) if rng.random() < 0.85 else rng.choice(ODD_SCALES), 'flags': rng.choice([0, 0, 1, 7])}
         if rng.random() < 0.4:
             case['reuse'] = rng.choice([s_ for s_ in SCALES if s_ != case['scale']])
+        if rng.random() < 0.25:
+            case['zoom'] = case['scale'] if rng.random() < 0.5 else rng.choice([0.5, 2.0, 8.0, 16.0])
         ctx.run_case(case)
         if i == 0:
             ctx.sample(case)
